@@ -162,7 +162,8 @@ class TokenParser(Parser):
 
         names.extend(self._names(tokens))
         for name in names:
-            if issubclass(type_, Structure) and type_.__anonymous__:
+            if issubclass(type_, Structure) and type_.__anonymous__ and re.fullmatch(r"[a-zA-Z0-9_]+", name):
+                # An anonymous structure takes the first name declared for it (but not a pointer or array declarator)
                 type_.__anonymous__ = False
                 type_.__name__ = name
                 type_.__qualname__ = name
